@@ -434,6 +434,18 @@ Section Values.
         rewrite (v_eq_cong_r c' c k) in E2; auto; [congruence|]. now rewrite v_eq_sym.
   Qed.
 
+  Lemma dict_set_get l c n c' : okl (map fst l) -> okv c = true -> okv c' = true ->
+    cnt (dict_set l c n) c' = if v_eq c c' then n else cnt l c'.
+  Proof.
+    intros Hl Hc Hc'. induction l as [|[k m] l IH]; cbn.
+    - destruct (v_eq c c'); auto.
+    - inversion Hl; subst. cbn in H1. destruct (v_eq k c) eqn:E; cbn.
+      + rewrite (v_eq_cong k c c'); auto. destruct (v_eq c c'); auto.
+      + rewrite IH; auto. destruct (v_eq k c') eqn:E2; auto.
+        destruct (v_eq c c') eqn:E3; auto.
+        rewrite (v_eq_cong_r c' c k) in E2; auto; [congruence|]. now rewrite v_eq_sym.
+  Qed.
+
   Lemma cnt_del_get l c c' : okl (map fst l) -> nodupeq (map fst l) -> okv c = true -> okv c' = true ->
     cnt (cnt_del l c) c' = if v_eq c c' then 0 else cnt l c'.
   Proof.
@@ -452,13 +464,13 @@ Section Values.
   Lemma cnt_set_keys_in l c n y : In y (map fst (cnt_set l c n)) -> In y (map fst l) \/ y = c.
   Proof.
     induction l as [|[k m] l IH]; cbn; [intros [->|[]]; auto|].
-    destruct (v_eq k c); cbn; [tauto|]. intros [->|H]; auto. apply IH in H. tauto.
+    destruct (v_eq k c); cbn; [intros [->|H]; auto|]. intros [->|H]; auto. apply IH in H. tauto.
   Qed.
 
-  Lemma cnt_set_okl l c n : okl (map fst l) -> okv c = true -> okl (map fst (cnt_set l c n)).
+  Lemma dict_set_keys_in l c n y : In y (map fst (dict_set l c n)) -> In y (map fst l) \/ y = c.
   Proof.
-    intros Hl Hc. apply Forall_forall. intros y Hy. apply cnt_set_keys_in in Hy.
-    destruct Hy as [Hy| ->]; auto. unfold okl in Hl. rewrite Forall_forall in Hl. auto.
+    induction l as [|[k m] l IH]; cbn; [intros [->|[]]; auto|].
+    destruct (v_eq k c); cbn; [tauto|]. intros [->|H]; auto. apply IH in H. tauto.
   Qed.
 
   Lemma cnt_set_nodup l c n : okl (map fst l) -> okv c = true -> nodupeq (map fst l) ->
@@ -466,9 +478,39 @@ Section Values.
   Proof.
     intros Hl Hc. induction l as [|[k m] l IH]; cbn; [intros _; split; [intros y []|exact I]|].
     inversion Hl; subst. cbn in H1. intros [Hk Hn]. destruct (v_eq k c) eqn:E; cbn.
-    - split; auto.
+    - split; auto. intros y Hy. unfold okl in H2. rewrite Forall_forall in H2.
+      rewrite <- (v_eq_cong k c y); auto.
     - split; auto. intros y Hy. apply cnt_set_keys_in in Hy. destruct Hy as [Hy| ->]; auto.
   Qed.
+
+  Lemma dict_set_nodup l c n : okl (map fst l) -> okv c = true -> nodupeq (map fst l) ->
+    nodupeq (map fst (dict_set l c n)).
+  Proof.
+    intros Hl Hc. induction l as [|[k m] l IH]; cbn; [intros _; split; [intros y []|exact I]|].
+    inversion Hl; subst. cbn in H1. intros [Hk Hn]. destruct (v_eq k c) eqn:E; cbn.
+    - split; auto.
+    - split; auto. intros y Hy. apply dict_set_keys_in in Hy. destruct Hy as [Hy| ->]; auto.
+  Qed.
+
+  (* the update of a cache value of either class *)
+  Definition eset (counter : bool) (l : list (value * nat)) (c : value) (n : nat) : list (value * nat) :=
+    if counter then cnt_set l c n else dict_set l c n.
+
+  Lemma eset_get b l c n c' : okl (map fst l) -> okv c = true -> okv c' = true ->
+    cnt (eset b l c n) c' = if v_eq c c' then n else cnt l c'.
+  Proof. destruct b; [apply cnt_set_get | apply dict_set_get]. Qed.
+
+  Lemma eset_okl b l c n : okl (map fst l) -> okv c = true -> okl (map fst (eset b l c n)).
+  Proof.
+    intros Hl Hc. apply Forall_forall. intros y Hy.
+    assert (In y (map fst l) \/ y = c) as [H| ->]; auto.
+    { destruct b; [eapply cnt_set_keys_in | eapply dict_set_keys_in]; eauto. }
+    unfold okl in Hl. rewrite Forall_forall in Hl. auto.
+  Qed.
+
+  Lemma eset_nodup b l c n : okl (map fst l) -> okv c = true -> nodupeq (map fst l) ->
+    nodupeq (map fst (eset b l c n)).
+  Proof. destruct b; [apply cnt_set_nodup | apply dict_set_nodup]. Qed.
 
   Lemma cnt_del_keys_in l c y : In y (map fst (cnt_del l c)) -> In y (map fst l).
   Proof.
@@ -573,6 +615,13 @@ Proof.
   intros H kv Hin Hp. destruct (v_eq (ucomp kv) c) eqn:E; auto.
   pose proof (ucount_pos U kv p c Hin Hp E). lia.
 Qed.
+
+Ltac fold_eset :=
+  cbv zeta;
+  repeat match goal with
+         | |- context [if ?b then cnt_set ?l ?c ?n else dict_set ?l ?c ?n] =>
+             change (if b then cnt_set l c n else dict_set l c n) with (eset b l c n)
+         end.
 
 Ltac ltb_solve :=
   repeat match goal with
@@ -722,19 +771,19 @@ Section Utilities.
     - (* cache keys ok *)
       intros p'. unfold cache_utility. destruct (cache_get C p) as [counter l] eqn:Ec.
       rewrite cache_get_aset. destruct (Nat.eqb p' p) eqn:Ep; [|apply (iu_cache_ok _ _ _ I)].
-      cbn [snd]. apply cnt_set_okl; auto.
+      cbn [snd]. fold_eset. apply (eset_okl cls); auto.
       pose proof (iu_cache_ok _ _ _ I p) as H. now rewrite Ec in H.
     - intros p'. unfold cache_utility. destruct (cache_get C p) as [counter l] eqn:Ec.
       rewrite cache_get_aset. destruct (Nat.eqb p' p) eqn:Ep; [|apply (iu_cache_nodup _ _ _ I)].
       cbn [snd]. pose proof (iu_cache_ok _ _ _ I p) as H. pose proof (iu_cache_nodup _ _ _ I p) as H'.
-      rewrite Ec in H, H'. apply cnt_set_nodup with (cls := cls); auto.
+      rewrite Ec in H, H'. fold_eset. apply (eset_nodup cls); auto.
     - intros p' c' Hc'. rewrite Hcount. unfold cache_utility.
       destruct (cache_get C p) as [counter l] eqn:Ec.
       rewrite cache_get_aset. rewrite (Nat.eqb_sym p p').
       destruct (Nat.eqb p' p) eqn:Ep; cbn [andb snd].
       + apply Nat.eqb_eq in Ep. subst p'.
         pose proof (iu_cache_ok _ _ _ I p) as H. rewrite Ec in H. cbn [snd] in H.
-        rewrite cnt_set_get with (cls := cls); auto.
+        fold_eset. rewrite (eset_get cls); auto.
         pose proof (iu_cache_cnt _ _ _ I p) as Hcnt. rewrite Ec in Hcnt. cbn [snd] in Hcnt.
         destruct (v_eq c c') eqn:Ev.
         * rewrite Hcnt; auto. rewrite (ucount_cong U p c c'); auto; [lia | apply (iu_ok _ _ _ I)].
@@ -860,7 +909,7 @@ Section Utilities.
       + apply Hmode'.
     - (* an equal component is still registered under p: stays subscribed *)
       apply Nat.eqb_neq in E0.
-      exists (aset Nat.eqb C p (counter, cnt_set l comp (ucount U p comp - 1))), true. split; auto.
+      exists (aset Nat.eqb C p (counter, eset counter l comp (ucount U p comp - 1))), true. split; auto.
       constructor.
       + apply (NoDup_adel _ pn_eqb_eq). apply (iu_keys _ _ _ I).
       + exact HU'.
@@ -878,13 +927,13 @@ Section Utilities.
           -- f_equal. lia.
         * f_equal. lia.
       + intros p'. rewrite cache_get_aset. destruct (Nat.eqb p' p); [|apply (iu_cache_ok _ _ _ I)].
-        cbn [snd]. now apply cnt_set_okl.
+        cbn [snd]. fold_eset. now apply (eset_okl cls).
       + intros p'. rewrite cache_get_aset. destruct (Nat.eqb p' p); [|apply (iu_cache_nodup _ _ _ I)].
-        cbn [snd]. apply cnt_set_nodup with (cls := cls); auto.
+        cbn [snd]. fold_eset. apply (eset_nodup cls); auto.
       + intros p' c' Hc'. rewrite cache_get_aset.
         pose proof (Hdelta p' c') as Hd. rewrite (Hveq c' Hc') in Hd. rewrite (Nat.eqb_sym p p') in Hd.
         destruct (Nat.eqb p' p) eqn:Ep; cbn [andb snd] in *.
-        * apply Nat.eqb_eq in Ep. subst p'. rewrite cnt_set_get with (cls := cls); auto.
+        * apply Nat.eqb_eq in Ep. subst p'. fold_eset. rewrite (eset_get cls); auto.
           destruct (v_eq comp c') eqn:Ev.
           -- rewrite <- (ucount_cong U p comp c') in Hd; auto. lia.
           -- rewrite Hcnt; auto. lia.
